@@ -155,6 +155,37 @@ func arenaFDs(dir string) int {
 	return n
 }
 
+// arenaFDKinds describes the descriptors that point into dir: "w" for the
+// write-only handle openTemp created, "r" for a reopened read-only one.
+func arenaFDKinds(dir string) string {
+	ents, err := os.ReadDir("/proc/self/fd")
+	if err != nil {
+		return "?"
+	}
+	var out []string
+	for _, e := range ents {
+		l, err := os.Readlink("/proc/self/fd/" + e.Name())
+		if err != nil || !(l == dir || strings.HasPrefix(l, dir+"/")) {
+			continue
+		}
+		kind := "?"
+		if b, err := os.ReadFile("/proc/self/fdinfo/" + e.Name()); err == nil {
+			for _, ln := range strings.Split(string(b), "\n") {
+				if strings.HasPrefix(ln, "flags:") {
+					f, _ := strconv.ParseInt(strings.TrimSpace(strings.TrimPrefix(ln, "flags:")), 8, 64)
+					if f&3 == 0 {
+						kind = "r"
+					} else {
+						kind = "w"
+					}
+				}
+			}
+		}
+		out = append(out, kind)
+	}
+	return strings.Join(out, ",")
+}
+
 func dirEntries(dir string) int {
 	ents, err := os.ReadDir(dir)
 	if err != nil {
